@@ -194,10 +194,29 @@ def check_pipeline(ctx, c, d, line):
         ctx.violation('pipeline-arg', '; '.join(probs) + ' | line %r -> %r' % (line[:300], it['text'][:300]), case)
 
 
+def prelude_for(rng, c):
+    """earlier traffic of the same process that mentions the ids this closure mentions: a registry bind that gives
+    `new id [unknown]@N` an interface, and an object of another type at the target's id.  What a line denotes does not
+    depend on what was decoded and delivered before it."""
+    out = ['[1.000]  -> wl_display@1.get_registry(new id wl_registry@2)']
+    for a in c['args']:
+        if a['k'] == 'n' and a.get('iface') is None and a['v'] > 2:
+            out.append('[1.001]  -> wl_registry@2.bind(1, "wl_compositor", 4, new id [unknown]@%d)' % a['v'])
+            out.append('[1.002]  -> wl_compositor@%d.create_surface(new id wl_surface@%d)' % (a['v'], a['v'] + 1 if a['v'] < printer.UINT32_MAX else 3))
+    if c['id'] > 2:
+        out.append('[1.003]  -> wl_display@1.sync(new id wl_callback@%d)' % c['id'])
+        out.append('[1.004] wl_callback@%d.done(0)' % c['id'])
+    return out if len(out) > 1 else None
+
+
 def run_case(ctx, case, parse, wl, known_ifaces):
     c, d = case['closure'], case['dialect']
     line = printer.render(c, d)
     ctx.ev()
+    if case.get('prelude'):
+        s0 = Session()
+        s0.feed([l + '\n' for l in case['prelude']])
+        ctx.count('preludes')
     if c['args'] or c.get('queue') is not None or c.get('conn') is not None:
         ctx.sig(sig_of(c, d))
     for a in c['args']:
@@ -208,10 +227,31 @@ def run_case(ctx, case, parse, wl, known_ifaces):
     return line
 
 
+CALL = re.compile(r'\w[@#]\d+\.\w+\(')
+
+
+def maybe_message(s):
+    """LIBERAL in linear time (the regular expression backtracks quadratically on long near misses, which made one
+    70 KB line cost the harness 19 s): `[ .. digit .. ]` without a `]` inside, later `w@N.name(`, `)` at the end"""
+    if not s.endswith(')'):
+        return False
+    seen_open = seen_digit = False
+    for i, ch in enumerate(s):
+        if ch == '[':
+            seen_open = True
+        elif ch == ']':
+            if seen_open and seen_digit:
+                return CALL.search(s, i + 1) is not None
+            seen_open = seen_digit = False
+        elif seen_open and ch.isdigit():
+            seen_digit = True
+    return False
+
+
 def run_negative(ctx, line, parse):
     ctx.ev()
     ctx.count('negative_lines')
-    if LIBERAL.search(line.strip()):
+    if maybe_message(line.strip()):
         ctx.count('negative_skipped_liberal_match')
         return
     try:
@@ -260,6 +300,8 @@ def run(ctx, spec):
                     while a['v'] <= 1 or a['v'] in used:
                         a['v'] = rng.randint(2, printer.UINT32_MAX)
                     used.add(a['v'])
+        if i % 9 == 4:
+            case['prelude'] = prelude_for(rng, c)
         line = run_case(ctx, case, parse, wl, known)
         if i < 2:
             ctx.sample({'line': line, 'closure_kinds': ''.join(a['k'] for a in c['args'])})
